@@ -7,6 +7,8 @@ From TS Require Import Model.Str Model.Outcome Model.Unicode Model.Types Model.P
 From TS Require Import Spec.C10Spec.
 From TS Require Proofs.C10Lex Proofs.C10_TS Proofs.C10_TSFile Proofs.C10_KT Proofs.C10_SC Proofs.C10_GO Proofs.C10_GOFile
                 Proofs.C10_SW Proofs.C10_SWFile Proofs.C10_PY Proofs.C10_PYFile Proofs.C10_KW Proofs.C10.
+From TS Require Import Spec.C10TsGrammar.
+From TS Require Proofs.C10_TSGrammarTok Proofs.C10_TSGrammarParse Proofs.C10_TSGrammar Proofs.C10_TSGrammarFile.
 
 (* ---------------------------------------------------------------- the lexers *)
 (* the lexer never looks below the bracket stack it started with: a text that is balanced on its own
@@ -220,3 +222,94 @@ Theorem C10_python_empty_union_refuted :
     py_generate uc_exec cfg pd = Ok text /\ contains_sub (lit "E = Union[]") text = true.
 Proof. exact Proofs.C10.python_empty_union_refuted. Qed.
 Print Assumptions C10_python_empty_union_refuted.
+
+(* ---------------------------------------------------------------- (3) the GRAMMAR half, TypeScript *)
+(* "the recogniser" = c10_ts_recognise of Spec/C10TsGrammar.v, the tokenizer + recursive-descent parser of the TypeScript
+   declaration subset that checks/c10.py runs on every real and every modelled TypeScript file (driver command
+   c10_ts_parse); Some n = the text is n well-formed declarations.
+
+   The tokenizer is compositional at token boundaries: if the text b does not start with an identifier character or a
+   star, or the text a ends with a character that is neither an identifier character nor a slash (glue a b), the tokens
+   of a ++ b are the tokens of a followed by the tokens of b - with exactly the fuel the recogniser gives it. *)
+Theorem C10_ts_tokens_frame :
+  forall (a : str) (ta : list c10_tok) (b : str) (tb : list c10_tok),
+    c10_ts_tokens (S (List.length a)) a = Some ta -> c10_ts_tokens (S (List.length b)) b = Some tb ->
+    Proofs.C10_TSGrammarTok.glue a b = true ->
+    c10_ts_tokens (S (List.length (a ++ b))) (a ++ b) = Some (ta ++ tb).
+Proof. exact Proofs.C10_TSGrammarTok.tokens_frame. Qed.
+Print Assumptions C10_ts_tokens_frame.
+
+(* The parser is complete for the declarative grammar Gr of Proofs/C10_TSGrammarParse.v (the grammar of the header
+   comment of Spec/C10TsGrammar.v as an inductive family over token lists: primary, postfix, union, type, type list,
+   object body, member): the tokens of a type followed by anything that does not start with [<], [|] or [[] are consumed
+   exactly, with the fuel the recogniser gives itself. *)
+Theorem C10_ts_type_grammar_complete :
+  forall (t rest : list c10_tok),
+    Proofs.C10_TSGrammarParse.Gr Proofs.C10_TSGrammarParse.STy t -> Proofs.C10_TSGrammarParse.fol rest ->
+    c10_ts_type (t ++ rest) = Some rest.
+Proof. exact Proofs.C10_TSGrammarParse.ts_type_ok. Qed.
+Print Assumptions C10_ts_type_grammar_complete.
+
+(* Layout layer, all declarations: the concatenated text of ANY list of declarations (interfaces, aliases, constants,
+   unit enums, tagged unions) that are well-formed for the grammar - names, generic parameters, case names, tag and
+   content keys identifiers; property keys identifiers or dashed (then quoted); wire names key-shaped; doc lines safe;
+   every type tree made of identifier names and of verbatim leaves that are types of the grammar; at least one variant
+   in a union; a decimal constant value - is accepted, as exactly that many declarations. *)
+Theorem C10_ts_layout_grammar :
+  forall ds : list ts_decl, Forall Proofs.C10_TSGrammar.c10_tsg_decl_ok ds ->
+    c10_ts_recognise (List.concat (map ts_render_decl ds)) = Some (List.length ds).
+Proof. exact Proofs.C10_TSGrammarFile.ts_decls_recognised. Qed.
+Print Assumptions C10_ts_layout_grammar.
+
+(* Whole files, from the IR: for every program of dom_C10 and every admissible configuration (the hypotheses of
+   C10_lex_typescript), strengthened by what the grammar needs -
+     c10_tsg_cfg_ok: every type_mappings value is the text of a type of the grammar (TyText: it tokenises, as an open
+       fragment, to a union type of Gr);
+     c10_tsg_dom: every property key (renamed field name) is an identifier unless it contains a dash (the finding class
+       C10-digit-name is outside), every TypeScript type override is the text of a type of the grammar, the tag and
+       content keys of a tagged union are identifiers (they are printed unquoted) and a tagged union has at least one
+       variant (`export type E = ;` is not a declaration) -
+   the recogniser accepts the generated file: version header, every declaration, ReviverFunc / ReplacerFunc trailer;
+   it finds at least one declaration per item. *)
+Theorem C10_grammar_typescript :
+  forall (uc : unicode) (cfg : ts_config) (pd : parsed) (text : str),
+    unicode_ok uc -> Proofs.C10_TSFile.c10_ts_cfg_ok cfg = true -> Proofs.C10_TSGrammarFile.c10_tsg_cfg_ok cfg ->
+    dom_C10 CTS pd = true -> Proofs.C10_TSGrammarFile.c10_tsg_dom pd ->
+    ts_generate uc cfg pd = Ok text ->
+    exists n : nat, c10_ts_recognise text = Some n /\ (List.length (items_of pd) <= n)%nat.
+Proof. exact Proofs.C10_TSGrammarFile.ts_generate_recognised. Qed.
+Print Assumptions C10_grammar_typescript.
+
+(* The same with COMPUTABLE extra hypotheses: every type_mappings value and every TypeScript type override is
+   identifier-shaped (string, Date, Uint8Array, MyType ...), keys / tags / variants as above *)
+Theorem C10_grammar_typescript_simple :
+  forall (uc : unicode) (cfg : ts_config) (pd : parsed) (text : str),
+    unicode_ok uc -> Proofs.C10_TSFile.c10_ts_cfg_ok cfg = true -> Proofs.C10_TSGrammarFile.c10_tsg_cfg_simple cfg = true ->
+    dom_C10 CTS pd = true -> Proofs.C10_TSGrammarFile.c10_tsg_dom_simple pd = true ->
+    ts_generate uc cfg pd = Ok text ->
+    exists n : nat, c10_ts_recognise text = Some n /\ (List.length (items_of pd) <= n)%nat.
+Proof. exact Proofs.C10_TSGrammarFile.ts_generate_recognised_simple. Qed.
+Print Assumptions C10_grammar_typescript_simple.
+
+(* The hypotheses are satisfiable and acceptance means something: a program with a documented generic interface (string,
+   optional, array, tuple, Date, mapped Uint8Array and string, Record of a generic application, a readonly dashed
+   doubly-optional key, a verbatim override `Array<string | number>[] | null`), a doubly-optional generic alias, a unit
+   enum, a tagged union with unit / tuple / optional-tuple / struct variants and two constants (one negative) is in the
+   domain, in no finding class, and its file - with version header and Date / Uint8Array reviver and replacer - is
+   accepted as 8 declarations; the same text without its last three characters, without its first opening brace, or
+   with its first `=` turned into `:` is rejected. *)
+Theorem C10_grammar_typescript_witness :
+  Proofs.C10_TSFile.c10_ts_cfg_ok Proofs.C10_TSGrammarFile.g_cfg = true /\ Proofs.C10_TSGrammarFile.c10_tsg_cfg_ok Proofs.C10_TSGrammarFile.g_cfg /\
+  dom_C10 CTS Proofs.C10_TSGrammarFile.g_prog = true /\ Proofs.C10_TSGrammarFile.c10_tsg_dom Proofs.C10_TSGrammarFile.g_prog /\
+  known_C10 CTS [] Proofs.C10_TSGrammarFile.g_prog = [] /\
+  ts_generate uc_exec Proofs.C10_TSGrammarFile.g_cfg Proofs.C10_TSGrammarFile.g_prog = Ok Proofs.C10_TSGrammarFile.g_text /\
+  c10_ts_recognise Proofs.C10_TSGrammarFile.g_text = Some 8%nat /\
+  contains_sub (lit "export interface Person<T, U> {") Proofs.C10_TSGrammarFile.g_text = true /\
+  contains_sub (lit "readonly ""first-name""?: string | null;") Proofs.C10_TSGrammarFile.g_text = true /\
+  contains_sub (lit "| { type: ""Opt"", content?: number | null }") Proofs.C10_TSGrammarFile.g_text = true /\
+  contains_sub (lit "export const ReplacerFunc = ") Proofs.C10_TSGrammarFile.g_text = true /\
+  c10_ts_recognise (firstn (List.length Proofs.C10_TSGrammarFile.g_text - 3) Proofs.C10_TSGrammarFile.g_text) = None /\
+  c10_ts_recognise (Proofs.C10_TSGrammarFile.g_drop_first 123 Proofs.C10_TSGrammarFile.g_text) = None /\
+  c10_ts_recognise (Proofs.C10_TSGrammarFile.g_subst_first 61 58 Proofs.C10_TSGrammarFile.g_text) = None.
+Proof. exact Proofs.C10_TSGrammarFile.grammar_witness. Qed.
+Print Assumptions C10_grammar_typescript_witness.
